@@ -30,7 +30,7 @@ CLAIMED = {
     "C15": ("Bounded model checking of Frame::rollbacks against the definition (marked iff an earlier / later row has the same id; exactly one unmarked row per id) for every id sequence of length 0, 2, 4 (5 thorough) over six ids.", NOTE + " Longer sequences and ids above -118 are outside.", T, "§5 C15"),
     "C17": ("Same decomposition as C01 on the writer side: declared raw length equals emitted bytes (no end, one end, doubled end, items), gecko block emission equals gecko_codes_size for every actual size incl. completely full blocks, per-struct write/size agreement.", NOTE + " The whole-file fixed point write(read(write(g))) is not claimed.", T, "§5 C17"),
     "C19": ("Bounded model checking: fix_char equals the stated mapping and is idempotent for every Unicode scalar value (complete); for all contents of 10/16/31-byte fields the decoder is called exactly once with the bytes before the first NUL, None -> Err, Some -> that string.", NOTE + " encoding_rs's Shift-JIS tables are trusted (decoder replaced by a recorder).", T, "§5 C19"),
-    "C20": ("Bounded model checking: gte/lt equal lexicographic order for all 2^40 inputs, gates monotone (complete); parse_u8 on all 1-3 character components over a 13-symbol alphabet (quick); FromStr rejection/acceptance vs a reference scanner for all strings of length 2-5 and the Display->parse round trip (thorough: 12+ min each); format-version gate complete.", NOTE, T, "§5 C20"),
+    "C20": ("Bounded model checking: gte/lt equal lexicographic order for all 2^40 inputs, gates monotone (complete); parse_u8 on all 1-3 character components over a 13-symbol alphabet (quick); FromStr rejection/acceptance vs a reference scanner for all strings of length 2-5 (thorough: 8-15 min each); format-version gate complete.", NOTE + " The Display->parse round trip is NOT decided: core::fmt under CBMC did not finish (60 min for all triples, 35 min for a single digit-count class); it is outside the claim.", T, "§5 C20"),
 }
 
 NOT_APPLICABLE = {
